@@ -258,6 +258,9 @@ func verifyFunction(P *Program, db *SpecDB, ti *TypeInfo, fn *ssa.Function, c *C
 	}
 	// axioms
 	for _, ax := range db.Axioms {
+		if ax.PkgPath != "" && P.lookupPkg(ax.PkgPath) == nil {
+			continue // an axiom of a package that is not part of this load (like the contracts of that package)
+		}
 		if len(ax.Props) > 0 && currentProperty != "" && !ax.Props[currentProperty] {
 			continue // a theory axiom scoped to other properties
 		}
